@@ -444,6 +444,24 @@ def tev(t, ctx):
             if tev(('field', a_, i, None), ctx) != tev(('field', b_, i, None), ctx):
                 same = False
         return same if short(t[1]) == 'eq' else not same
+    if k == 'call' and t[1] and t[1].startswith('core::num::<impl ') and short(t[1]) in ('abs', 'unsigned_abs', 'pow', 'min', 'max') and t[2]:
+        a = [tev(x, ctx) for x in t[2]]
+        if any(isinstance(v, float) or isinstance(v, bool) for v in a):
+            raise Uneval('integer method on non-integer')
+        n_ = short(t[1])
+        if n_ in ('abs', 'unsigned_abs'):
+            return abs(a[0])
+        if n_ == 'pow':
+            r_ = a[0] ** a[1]
+            if abs(r_) >= 2 ** 63:
+                raise Uneval('wide')
+            return r_
+        return min(a) if n_ == 'min' else max(a)
+    if k == 'call' and t[1] in ('std::cmp::Ord::min', 'std::cmp::Ord::max', 'std::cmp::min', 'std::cmp::max', 'core::cmp::Ord::min', 'core::cmp::Ord::max') and len(t[2]) == 2:
+        a = [tev(x, ctx) for x in t[2]]
+        if any(isinstance(v, float) or isinstance(v, bool) for v in a):
+            raise Uneval('Ord::min on non-integer')
+        return min(a) if t[1].endswith('min') else max(a)
     if k == 'call' and t[1] and short(t[1]) in ('is_empty',) and len(t[2]) == 1:
         return tev(('len', t[2][0]), ctx) == 0
     if k == 'call' and t[1] and short(t[1]) == 'contains' and len(t[2]) == 2 and tag(_strip(t[2][0])) == 'constx':
